@@ -68,7 +68,10 @@ def check(ctx):
                 if fr and lib.tail(mir.fn_name(fr), 2) == "Commands::queue":
                     agg = linear.agg_of(ris, t["args"][1])
                     if (agg and agg["kind"] == "closure" and any(linear.is_res(ris, c, res) for c in agg["ops"])) \
-                            or linear.is_res(ris, t["args"][1], res):      # `queue(move |w| cleanup(w))` or `queue(cleanup)`
+                            or linear.is_res(ris, t["args"][1], res) \
+                            or (agg and agg["kind"] == "adt" and prog.type_impls(agg.get("adt"), "Command")
+                                and any(linear.is_res(ris, c, res) for c in agg["ops"])):
+                        # `queue(move |w| cleanup(w))`, `queue(cleanup)` or `queue(RunCleanup(cleanup))` (a crate command struct)
                         # on the world's own queue
                         recv = origins(ris, t["args"][0])
                         own = all(o[0] == "call" and lib.tail(mir.fn_name(op_fn(ris.blocks[o[1]]["term"]["func"])), 2) == "World::commands"
@@ -199,6 +202,14 @@ def check(ctx):
     # ---- C04.f a run postponed by recursion is handed its own event's metadata (shared with C03.e / C12.a) ----
     nf = core.adopt(ctx, c03, lambda o: o["rule"] == "C03.e", "C04.f")
     ctx.floor("C04.f", nf, 12, "shared claim-order obligations (C03.e)")
+
+    # ---- C04.h nothing that was detected before a run is left pending into it: reactions to removals / despawns made earlier
+    # are flushed by the runner's entry pass (collect + poll) *before* the target is looked up and its setup marks the event as
+    # being reacted to; a reaction still queued at that point would run inside the run (e.g. in an exclusive system's final
+    # flush, ahead of the queued cleanup) and observe the event (shared with C08.e) ----
+    import c08 as _c08
+    nh_ = core.adopt(ctx, _c08, lambda o: o["rule"] == "C08.e" and "runner:" in o["key"], "C04.h")
+    ctx.floor("C04.h", nh_, 3, "shared entry-pass obligations of the runner (C08.e)")
 
     # ---- C04.d who can set the flag (A9) ----
     trackers = A.tracker_types(prog)
